@@ -3,7 +3,8 @@
     `encImpl`   responses/dods.py  (`_basetype`, `_structuretype`, `_sequencetype` flat + nested paths)
     `calcSize`  responses/dods.py  `calculate_size`
     `decImpl`   handlers/dap.py    (`unpack_dap2_data`/`unpack_children`, `unpack_sequence` simple +
-                                    general paths, `convert_stream_to_list`), reading from a `BytesReader`
+                                    general paths, `convert_stream_to_list`), reading from the strict `BytesReader`
+                                    (lib.py, fix 72d8e7c: `read(n)` raises when fewer than n bytes remain)
     `splitBody` handlers/dap.py    `safe_dds_and_data`  (`raw.split(b"\nData:\n", 1)`)
   Widths, dtype chars and markers are looked up in `Pydap.Gen` (regenerated from lib.py on every run).
 -/
@@ -130,23 +131,26 @@ def splitBody (raw : Bytes) : Option (Bytes × Bytes) := splitFirst splitPattern
 /-! ## decoder (handlers/dap.py) over a `BytesReader` -/
 
 inductive Err where
-  | short     -- numpy.frombuffer on too few bytes / IndexError on an empty buffer
+  | short     -- EOFError of a strict `BytesReader.read` / numpy.frombuffer on a wrong byte count
   | decode    -- non-ASCII string, negative length word
   | shape     -- reshape failure
   | fuel
 deriving DecidableEq, Repr, Inhabited
 
-/-- `BytesReader.read(n)`: what is left when fewer than `n` bytes remain -/
-def read (n : Nat) (s : Bytes) : Bytes × Bytes := (s.take n, s.drop n)
+/-- `BytesReader.read(n)`: exactly `n` bytes; `EOFError` when fewer than `n` remain (fix 72d8e7c) -/
+def read (n : Nat) (s : Bytes) : Except Err (Bytes × Bytes) :=
+  if s.length < n then .error .short else .ok (s.take n, s.drop n)
 
 /-- `numpy.frombuffer(stream.read(4), DAP2_ARRAY_LENGTH_NUMPY_TYPE)[0]` (signed: a negative count is
     reported as an error here; what numpy does with it is outside the model) -/
 def readLen (s : Bytes) : Except Err (Nat × Bytes) :=
   let w := (dtypeItemsize Gen.DAP2_ARRAY_LENGTH_NUMPY_TYPE).getD 0
-  let b := (read 4 s).1
-  if b.length ≠ w then .error .short
-  else if beNat b ≥ 2147483648 then .error .decode
-  else .ok (beNat b, (read 4 s).2)
+  match read 4 s with
+  | .error e => .error e
+  | .ok p =>
+    if p.1.length ≠ w then .error .short
+    else if beNat p.1 ≥ 2147483648 then .error .decode
+    else .ok (beNat p.1, p.2)
 
 /-- `.astype(parser_dtype)` applied to the unsigned reading `n` of the wire bytes: wrap into the
     parser dtype's width, signed for `h`/`i`; floats keep their bits -/
@@ -179,15 +183,20 @@ def asciiDecode (b : Bytes) : Except Err Bytes :=
 /-- numpy `S` arrays drop trailing NULs -/
 def rstrip0 (b : Bytes) : Bytes := (b.reverse.dropWhile (· == 0)).reverse
 
-/-- one string: length word, `read(k)` (possibly short: a `BytesReader` does not complain), `read(-k % 4)` -/
+/-- one string: length word, `read(k)`, `.decode("ascii")`, `read(-k % 4)`; every read is strict -/
 def readString (s : Bytes) : Except Err (Bytes × Bytes) :=
   match readLen s with
   | .error e => .error e
   | .ok (k, s1) =>
-    let s3 := (read (pad4 k) (read k s1).2).2
-    match asciiDecode (read k s1).1 with
+    match read k s1 with
     | .error e => .error e
-    | .ok t => .ok (t, s3)
+    | .ok p =>
+      match asciiDecode p.1 with
+      | .error e => .error e
+      | .ok t =>
+        match read (pad4 k) p.2 with
+        | .error e => .error e
+        | .ok q => .ok (t, q.2)
 
 /-- the `for _ in range(n)` loop of the string-array branch -/
 def readStrings : Nat → Bytes → Except Err (List Val × Bytes)
@@ -196,9 +205,15 @@ def readStrings : Nat → Bytes → Except Err (List Val × Bytes)
       match readLen s with
       | .error e => .error e
       | .ok (k, s1) =>
-        match readStrings n (read (pad4 k) (read k s1).2).2 with
+        match read k s1 with
         | .error e => .error e
-        | .ok (vs, s4) => .ok (.str (read k s1).1 :: vs, s4)
+        | .ok p =>
+          match read (pad4 k) p.2 with
+          | .error e => .error e
+          | .ok q =>
+            match readStrings n q.2 with
+            | .error e => .error e
+            | .ok (vs, s4) => .ok (.str p.1 :: vs, s4)
 
 /-- `numpy.array([str(x.decode("ascii")) for x in data], "S")` -/
 def decodeAll : List Val → Except Err (List Val)
@@ -229,24 +244,37 @@ def convertStream (ty : Ty) (shape : List Nat) (s : Bytes) : Except Err (Data ×
           | .error e => .error e
           | .ok vs => if n ≠ prod shape then .error .shape else .ok (.array vs, s2)
       else
-        let s2 := (read 4 s1).2                        -- the repeated length, not inspected
-        let b := (read (wireWidth ty * n) s2).1
-        let s3 := (read (wireWidth ty * n) s2).2
-        match fromWireMany ty n b with
+        match read 4 s1 with                             -- the repeated length, not inspected
         | .error e => .error e
-        | .ok vs =>
-          if n ≠ prod shape then .error .shape
-          else .ok (.array vs, if wireChar ty = 'B' then (read (pad4 n) s3).2 else s3)
+        | .ok p2 =>
+          match read (wireWidth ty * n) p2.2 with
+          | .error e => .error e
+          | .ok p3 =>
+            match fromWireMany ty n p3.1 with
+            | .error e => .error e
+            | .ok vs =>
+              if n ≠ prod shape then .error .shape
+              else if wireChar ty = 'B' then
+                match read (pad4 n) p3.2 with
+                | .error e => .error e
+                | .ok p4 => .ok (.array vs, p4.2)
+              else .ok (.array vs, p3.2)
   else if wireChar ty = 'S' then
     match readString s with
     | .error e => .error e
     | .ok (t, s1) => .ok (.scalar (.str t), s1)
   else
-    match fromWire ty (read (wireWidth ty) s).1 with
+    match read (wireWidth ty) s with
     | .error e => .error e
-    | .ok v =>
-      let s1 := (read (wireWidth ty) s).2
-      .ok (.scalar v, if wireChar ty = 'B' then (read 3 s1).2 else s1)
+    | .ok p =>
+      match fromWire ty p.1 with
+      | .error e => .error e
+      | .ok v =>
+        if wireChar ty = 'B' then
+          match read 3 p.2 with
+          | .error e => .error e
+          | .ok q => .ok (.scalar v, q.2)
+        else .ok (.scalar v, p.2)
 
 /-- `unpack_sequence`'s test for the record-at-a-time path: base-type columns, no strings, scalar, and
     the parser dtype is the wire dtype (16-bit and Byte columns are widened/padded on the wire) -/
@@ -273,20 +301,25 @@ def splitRecord : List Tmpl → Bytes → Except Err (List Data)
         | .ok ds => .ok (.scalar v :: ds)
   | _, _ => .ok []
 
-/-- the marker loop of the simple path -/
+/-- the marker loop of the simple path (`marker = stream.read(4)` is strict too: a stream that ends
+    where a marker is due raises) -/
 def decRowsSimple (cs : List Tmpl) : Nat → Bytes → Except Err (List Data × Bytes)
   | 0, _ => .error .fuel
   | f + 1, s =>
-      if (read 4 s).1 = Gen.START_OF_SEQUENCE then
-        let b := (read (recordSize cs) (read 4 s).2).1
-        if b.length ≠ recordSize cs then .error .short else
-        match splitRecord cs b with
-        | .error e => .error e
-        | .ok r =>
-          match decRowsSimple cs f (read (recordSize cs) (read 4 s).2).2 with
+      match read 4 s with
+      | .error e => .error e
+      | .ok m =>
+        if m.1 = Gen.START_OF_SEQUENCE then
+          match read (recordSize cs) m.2 with
           | .error e => .error e
-          | .ok (rs, s3) => .ok (.tuple r :: rs, s3)
-      else .ok ([], (read 4 s).2)
+          | .ok p =>
+            match splitRecord cs p.1 with
+            | .error e => .error e
+            | .ok r =>
+              match decRowsSimple cs f p.2 with
+              | .error e => .error e
+              | .ok (rs, s3) => .ok (.tuple r :: rs, s3)
+        else .ok ([], m.2)
 
 mutual
 /-- one column inside `unpack_children` -/
@@ -321,14 +354,17 @@ def decs : Nat → List Tmpl → Bytes → Except Err (List Data × Bytes)
 def decRows : Nat → List Tmpl → Bytes → Except Err (List Data × Bytes)
   | 0, _, _ => .error .fuel
   | f + 1, cs, s =>
-      if (read 4 s).1 = Gen.START_OF_SEQUENCE then
-        match decs f cs (read 4 s).2 with
-        | .error e => .error e
-        | .ok (ds, s2) =>
-          match decRows f cs s2 with
+      match read 4 s with
+      | .error e => .error e
+      | .ok m =>
+        if m.1 = Gen.START_OF_SEQUENCE then
+          match decs f cs m.2 with
           | .error e => .error e
-          | .ok (rs, s3) => .ok (.tuple ds :: rs, s3)
-      else .ok ([], (read 4 s).2)
+          | .ok (ds, s2) =>
+            match decRows f cs s2 with
+            | .error e => .error e
+            | .ok (rs, s3) => .ok (.tuple ds :: rs, s3)
+        else .ok ([], m.2)
 end
 
 mutual
